@@ -1,6 +1,6 @@
 SPECIFICATION Spec
 CONSTANTS
-  Widths = {31, 32, 33, 34, 64, 65}
+  Widths = {31, 32, 33, 34, 64, 65, 300}
   DoEmit = TRUE
 INVARIANTS ThmDenotes EmitVfp
 CHECK_DEADLOCK FALSE
